@@ -426,17 +426,19 @@ fn handle_diff<T: Clone>(
 
         VectorDiff::Insert { index, value } => {
             if limit > previous_length || index > index_of_limit {
-                if is_full {
+                let index = if is_full {
                     // Create 1 free space.
                     res.push(VectorDiff::PopFront);
-                }
+
+                    // Subtract 1 because the `PopFront` shifted the view.
+                    index - index_of_limit - 1
+                } else {
+                    // The view is not full: it starts at 0, nothing was shifted.
+                    index
+                };
 
                 // There is space for this new item.
-                res.push(VectorDiff::Insert {
-                    // Subtract 1 because `insert` adds a value compared to `previous_length`.
-                    index: (index - index_of_limit).saturating_sub(1),
-                    value,
-                });
+                res.push(VectorDiff::Insert { index, value });
             } else {
                 // Insert before `limit`, ignore the diff.
             }
